@@ -178,6 +178,21 @@ def run(ctx):
         n, s = escw[0]
         res.add(Finding('C08', 'C08.c', 'R-CONTAIN', wt.file, wt.qualname, wt.node.lineno, 'exception from %s ends the worker loop' % s.extra.get('exc_src'),
                         'an exception while serving one task terminates the worker: later recordings fail although they are fine', witness=dw.path_to(n, s)))
+    # the serving loop has no way out except its own condition (the terminate event): a `return` / `break` after a task - e.g. after a
+    # reported failure - leaves the parent with a handle to a worker that no longer serves
+    wloops = [l for l in walk_own(wt.node) if isinstance(l, ast.While)]
+    leaves = []
+    if wloops:
+        inner_loops = {id(x) for l2 in ast.walk(wloops[0]) if l2 is not wloops[0] and isinstance(l2, (ast.While, ast.For)) for x in ast.walk(l2)}
+        for x in ast.walk(wloops[0]):
+            if isinstance(x, ast.Return) or (isinstance(x, ast.Break) and id(x) not in inner_loops):
+                leaves.append(x)
+        leaves += [x for st_ in wt.node.body for x in ([st_] if isinstance(st_, ast.Return) else []) if st_.lineno < wloops[0].lineno]
+    cc.instance('worker loop: no task ends the loop (no return / break out of it)', wt.qualname, bool(wloops) and not leaves)
+    for x in leaves[:1]:
+        res.add(Finding('C08', 'C08.c', 'R-CONTAIN', wt.file, wt.qualname, x.lineno, norm(x),
+                        'the worker leaves its serving loop after a task (`%s`) while the parent keeps its handle: the next recording is sent to a '
+                        'worker that is gone and gets a "process died" failure although it is fine' % norm(x)))
     # ---------------- C08.f a hung worker cannot block the run (shared with C13.a)
     from . import c13
     cfj = res.clause('C08.f', 'R-ABSINT', 'a hung worker fails only its own recording: no unbounded join can block the run', floor=1)
@@ -327,6 +342,10 @@ def run(ctx):
         res.add(Finding('C08', 'C08.h', 'R-AGREE', m.file, m.qualname, n.lineno, norm(n)[:100],
                         'the dedicated worker is made a daemon process: a daemonic process may not have children, so a replay that starts a process '
                         '(pool, subprocess helper) fails in the worker while the same replay succeeds in-process - the two modes give different verdicts'))
+    # ---- C08.n only a worker that is silent for the configured time is failed as timed out: the wait is measured against the clock
+    from . import common as _cm8b
+    _cm8b.import_clauses(ctx, res, 'C13', ['C13.a'], 'C08', 'C08.n', 'R-ABSINT',
+                         'the wait for a worker\'s answer lasts the configured timeout (clock-based), every poll is finite', floor=4)
     # ---- C08.m one comparison per id, in the order the ids were given: the studio's grouping of explicit ids (shared with C19.c)
     from . import common as _cm8
     _cm8.import_clauses(ctx, res, 'C19', ['C19.c'], 'C08', 'C08.m', 'R-PROV',
